@@ -84,7 +84,11 @@ class Check:
         if not os.path.exists(gosum):
             shutil.copy(os.path.join(REPO, "go.sum"), gosum)
         t = time.time()
-        p = subprocess.run(["go", "build", "-tags", "verif", "-o", out, "./cmd/vh"], cwd=HARNESS, env=GOENV,
+        cover = []
+        if os.environ.get("GOCOVERDIR"):   # diagnostic only: which functions of the code under verification do the drivers reach
+            pl = subprocess.run("go list -tags verif -deps ./cmd/vh | grep '^github.com/relex/slog-agent'", shell=True, cwd=HARNESS, env=GOENV, capture_output=True, text=True).stdout.split()
+            cover = ["-cover", "-coverpkg=" + ",".join(pl + ["verifharness/..."])]   # (the main module has to be among them)
+        p = subprocess.run(["go", "build", "-tags", "verif"] + cover + ["-o", out, "./cmd/vh"], cwd=HARNESS, env=GOENV,
                            capture_output=True, text=True)
         if p.returncode != 0:
             raise Inconclusive("harness build failed (does /repo compile with -tags verif?):\n" + p.stderr[-3000:])
